@@ -84,6 +84,10 @@ def cases(tier):
                 if tier == 'quick' and (gi + si) % 2:
                     continue
                 out.append(dict(kind='funcfl', el=el, nrho=nrho, drho=drho, nr=nr, dr=dr))
+    # a pair potential with an attractive well cannot be written as an effective charge: refused, or faithful - never silently altered
+    for el in EK.UNIVERSE[:2]:
+        for nr, dr in ((12, 0.3), (60, 0.1)):
+            out.append(dict(kind='funcfl', el=el, nrho=5, drho=0.5, nr=nr, dr=dr, attractive=True))
     return out
 
 
@@ -251,13 +255,22 @@ def run_funcfl(case):
     el = case['el']
     i = EK.idx(el)
     phi_d = EK.D(('>=', float('-inf'), EK.form('exp_spline', 0.3 + 0.1 * i, -0.8, 0.02, 0.0, 0.0, 0.0, 0.1)))   # positive
+    if case.get('attractive'):
+        phi_d = EK.D(('>=', float('-inf'), EK.form('morse', 1.8, 2.0, 0.35)))
     m = dict(fs=False, embed=[el], dens=[el], pairs=[], species='builtin')
     Z, mass, a, lat = EK.ref_meta(m, el, 'api')
     emb, dens = R.api_defn(EK.embed_defn(el)), R.api_defn(EK.dens_defn(el))
     eam = [ap.EAMPotential(el, Z, mass, emb, dens, 3.5 + i, ('fcc', 'bcc')[i % 2])]
     pots = [ap.Potential(el, el, R.api_defn(phi_d))]
     fp = io.StringIO()
-    ap.writeFuncFL(case['nrho'], case['drho'], case['nr'], case['dr'], eam, pots, fp, title='title %s' % el)
+    try:
+        ap.writeFuncFL(case['nrho'], case['drho'], case['nr'], case['dr'], eam, pots, fp, title='title %s' % el)
+    except ValueError:
+        if not case.get('attractive'):
+            raise
+        if fp.getvalue():
+            V(viol, 'funcfl-partial', 'writeFuncFL refused the attractive pair potential but had already written %d bytes' % len(fp.getvalue()))
+        return viol, 1
     try:
         t = RE.read_funcfl(fp.getvalue())
     except FormatError as e:
